@@ -7,7 +7,7 @@ SK_QUICK = [
     ("", 2, ""), ("h/", 2, ""), ("h/", 1, "/**"), ("h/a/**/", 1, ""), ("h/s/q1/**/", 1, ""), ("h/a,", 1, ""),
     ("h/s/q1/v1/", 1, ""), ("h/*/**/", 1, ""), ("h/a/**?version=", 1, ""), ("h/*/x?t=", 2, ""), ("h/s/**?ext=", 1, ""),
     ("h/*/*?zz=", 1, ""), ("h/*/*?n=", 1, ""), ("h/a/x/", 1, "/**"), ("h/**/", 1, ""), ("h/s/q1/v1/", 1, "/**"), ("h/a/x?", 2, ""),
-    ("h/a/x/v1?ext=", 1, ""), ("h/s/q1/v1?o=g&ext=", 1, ""), ("h/x,", 1, "/*"), ("h/x,y,", 1, ""), ("h/s/**/o/", 1, ""), ("h/a/x/v1/g, ", 1, ""),      # a path without search symbol + a deeper filter (its value may be one)
+    ("h/a/x/v1?ext=", 1, ""), ("h/s/q1/v1?o=g&ext=", 1, ""), ("h/x,", 1, "/*"), ("h/x,y,", 1, ""), ("h/s/**/o/", 1, ""), ("h/a/x/v1/g, ", 1, ""), ("h/a,*/x/v1/", 1, ""), ("h/a/x/*/y?version=v1?n=", 1, ""),      # a path without search symbol + a deeper filter (its value may be one)
 ]
 SK_THOROUGH = SK_QUICK + [
     ("", 3, ""), ("h/", 3, ""), ("h/", 2, "/**"), ("h/a/**/", 2, ""), ("h/s/q1/**/", 2, ""), ("h/a,", 2, ""), ("h/s/q1/v1/", 2, ""),
